@@ -121,6 +121,11 @@ type Parser struct {
 	// depth counts how deeply the expression (or block) which is
 	// being parsed is nested inside others.
 	depth int
+
+	// links counts the operators which have been chained, one after
+	// the other, in the expressions which are being parsed: every one
+	// of them makes the tree we build one level deeper.
+	links int
 }
 
 // MaxNesting is the deepest nesting of expressions and blocks the parser
@@ -128,6 +133,14 @@ type Parser struct {
 // made of millions of opening brackets would exhaust the stack of our
 // host, which kills the process rather than returning an error.
 const MaxNesting = 10000
+
+// MaxChain is the longest chain of operators ("1 + 1 + 1 ...") the parser
+// accepts.  Such a chain is parsed in a loop, but it becomes a tree which is
+// as deep as the chain is long, and whatever walks that tree recursively -
+// printing a node for an error-message, or for sorting the keys of a
+// hash-literal - would exhaust the stack of our host.  (The compiler
+// refuses to descend further than this, too.)
+const MaxChain = 100000
 
 // enter records that we go one level deeper, it returns false - after
 // recording an error - if that is deeper than we are willing to go.
@@ -359,6 +372,9 @@ func (p *Parser) parseExpression(precedence int) ast.Expression {
 		return nil
 	}
 
+	chained := 0
+	defer func() { p.links -= chained }()
+
 	for !p.peekTokenIs(token.SEMICOLON) && precedence < p.peekPrecedence() {
 		infix := p.infixParseFns[p.peekToken.Type]
 		if infix == nil {
@@ -366,6 +382,15 @@ func (p *Parser) parseExpression(precedence int) ast.Expression {
 			p.errors = append(p.errors, msg)
 			return leftExp
 		}
+
+		// Each operator puts what we have so far one level further down.
+		chained++
+		p.links++
+		if p.links > MaxChain {
+			p.errors = append(p.errors, fmt.Sprintf("the expression around %s chains too many operators, the limit is %d", p.curToken.Position(), MaxChain))
+			return nil
+		}
+
 		p.nextToken()
 		leftExp = infix(leftExp)
 
